@@ -544,17 +544,20 @@ def run_rp66(rep, ix):
                 if p.kind == 'raise':
                     continue
                 _check_len_helper(rep, ix, pm, helper, name, p)
+                _check_len_helper(rep, ix, pm, helper, name, p, at=7)
 
 
-def _check_len_helper(rep, ix, pm, helper, name, p):
-    params = {helper.args.args[0].arg: Bytes('B', 0, 1 << 20), helper.args.args[1].arg: Val.const(0)}
+def _check_len_helper(rep, ix, pm, helper, name, p, at=0):
+    # `at`: the value is looked for at position `at` of a longer buffer (the bytes before it belong to something else):
+    # the buffer is modelled as starting `at` bytes before the value, so position `at` is input byte 0
+    params = {helper.args.args[0].arg: Bytes('B', -at, 1 << 20), helper.args.args[1].arg: Val.const(at)}
     it = common.interp(ix, RP_P, helper, params)
     # seed with the decoder's path assignment (only real input bits)
     seed = {k: v for k, v in p.assign.items() if not k.startswith('?')}
     try:
         hp = _paths_seeded(it, seed)
     except bits.Unsupported as err:
-        rep.ob('R-C07-CONSUME', f'{RP_P}:{name}_len', f'helper not analysable', False, found=str(err),
+        rep.ob('R-C07-CONSUME', f'{RP_P}:{name}_len', f'helper not analysable' + (f' at index {at}' if at else ''), False, found=str(err),
                node=helper, module=pm)
         return
     for h in hp:
@@ -565,7 +568,7 @@ def _check_len_helper(rep, ix, pm, helper, name, p):
         ok = isinstance(h.value, Val) and h.value.aff.subst(h.assign) == want
         # the helper is applied to a flat buffer: bytes after a variable chunk are named by position there;
         # only single-base decoders (UVARI, IDENT, ORIGIN, OBNAME) have helpers
-        rep.ob('R-C07-CONSUME', f'{RP_P}:{name}_len', f'path[{tag}] equals bytes consumed by {name}'
+        rep.ob('R-C07-CONSUME', f'{RP_P}:{name}_len', f'path[{tag}]' + (f' at index {at}' if at else '') + f' equals bytes consumed by {name}'
                + ('' if ok else f': {bits.render(h.value)}'), ok, found=bits.render(h.value), required=want.render(),
                node=helper, module=pm)
 
